@@ -1480,36 +1480,65 @@ int stage_bfs(const args_t& args, report_t& r)
         closed += (closed.size() > 1 ? "," : "") + jstr(sh.name) + ":" + (is_closed ? "true" : "false");
     }
 
-    // (b) + (c) histories without deduplication
+    // (b) + (c) histories without deduplication; ordered so that a deadline costs the longest histories only:
+    //   full alphabet up to length 3 for every shape, then the core alphabet beyond L, then the full alphabet 4..L
+    struct task_t
+    {
+        size_t shape;
+        int    len;
+        bool   full;
+    };
+    std::vector<task_t> tasks;
+    for (int len = 1; len <= std::min(L, 3); ++len)
+    {
+        for (size_t is = 0; is < shapes.size(); ++is)
+        {
+            tasks.push_back({is, len, true});
+        }
+    }
+    for (size_t is = 0; is < shapes.size(); ++is)
+    {
+        const int maxlen = shapes[is].ref.kind == kind_t::SCALAR ? std::max(Lc, Ls) : Lc;
+        for (int len = L + 1; len <= maxlen; ++len)
+        {
+            tasks.push_back({is, len, false});
+        }
+    }
+    for (int len = 4; len <= L; ++len)
+    {
+        for (size_t is = 0; is < shapes.size(); ++is)
+        {
+            tasks.push_back({is, len, true});
+        }
+    }
     uint64_t histories = 0, done = 0;
     bool     stop = r.out_of_time();
-    for (size_t is = 0; is < shapes.size() && !stop; ++is)
+    for (size_t it = 0; it < tasks.size() && !stop; ++it)
     {
-        const auto& sh = shapes[is];
-        const int maxlen = sh.ref.kind == kind_t::SCALAR ? std::max(Lc, Ls) : Lc;
-        for (int len = 1; len <= maxlen && !stop; ++len)
+        const auto&      sh    = shapes[tasks[it].shape];
+        const int        len   = tasks[it].len;
+        const bool       full  = tasks[it].full;
+        const uint64_t   A     = full ? sh.ops.size() : sh.core.size();
+        const uint64_t   total = ipow(A, len);
+        std::vector<int> hist(static_cast<size_t>(len));
+        for (uint64_t idx = static_cast<uint64_t>(args.shard); idx < total; idx += static_cast<uint64_t>(args.shards))
         {
-            const bool             full  = len <= L;
-            const uint64_t         A     = full ? sh.ops.size() : sh.core.size();
-            const uint64_t         total = ipow(A, len);
-            std::vector<int>       hist(static_cast<size_t>(len));
-            for (uint64_t idx = static_cast<uint64_t>(args.shard); idx < total; idx += static_cast<uint64_t>(args.shards))
+            uint64_t x = idx;
+            for (int k = len; k-- > 0;)
             {
-                uint64_t x = idx;
-                for (int k = len; k-- > 0;)
-                {
-                    const auto d            = static_cast<size_t>(x % A);
-                    hist[static_cast<size_t>(k)] = full ? static_cast<int>(d) : sh.core[d];
-                    x /= A;
-                }
-                run_history(sh, hist, r, true);
-                ++histories;
-                if ((++done & 4095U) == 0U && r.out_of_time())
-                {
-                    r.cap("deadline hit in the history enumeration of shape " + sh.name + " at length " + std::to_string(len));
-                    stop = true;
-                    break;
-                }
+                const auto d                 = static_cast<size_t>(x % A);
+                hist[static_cast<size_t>(k)] = full ? static_cast<int>(d) : sh.core[d];
+                x /= A;
+            }
+            run_history(sh, hist, r, true);
+            ++histories;
+            if ((++done & 4095U) == 0U && r.out_of_time())
+            {
+                r.cap("deadline hit in the history enumeration: " + std::string(full ? "full" : "core") + " alphabet, length " +
+                      std::to_string(len) + ", shape " + sh.name + " (task " + std::to_string(it) + " of " +
+                      std::to_string(tasks.size()) + "; all earlier tasks are complete)");
+                stop = true;
+                break;
             }
         }
     }
